@@ -536,3 +536,176 @@ Proof.
     assert (Ex : x = sd_addr ad) by congruence. assert (Ey : y = sd_addr bd) by congruence. subst x y.
     eapply (I5 n ad (shift_sym _ bd) La); [rewrite lookup_shift, Lb; reflexivity|exact Xa|exact Xb].
 Qed.
+
+(* ---------- C20: success, refinement, commutativity, associativity ---------- *)
+Theorem link_success_iff a b : ObjInv a -> ObjInv b -> LinesFit a b ->
+  ((exists r, link a b = LOk r) <-> Linkable (view_of a) (view_of b)).
+Proof.
+  intros Ia Ib Hf. split.
+  - intros (r & H). eapply link_ok_inv; eauto.
+  - intro H. destruct (link_ok a b Ia Ib Hf H) as (r & E & _). eauto.
+Qed.
+
+Theorem link_refines a b r : ObjInv a -> ObjInv b -> LinesFit a b -> link a b = LOk r ->
+  veq (view_of r) (vlink (view_of a) (view_of b)) /\ ObjInv r /\ nlines r <= nlines a + nlines b.
+Proof.
+  intros Ia Ib Hf H. pose proof (link_ok_inv _ _ _ Ia Ib H) as L.
+  destruct (link_ok a b Ia Ib Hf L) as (r' & E & R). rewrite H in E. inversion E; subst. exact R.
+Qed.
+
+Lemma linesfit_sym a b : LinesFit a b -> LinesFit b a.
+Proof. unfold LinesFit. lia. Qed.
+
+Theorem link_comm a b r : ObjInv a -> ObjInv b -> LinesFit a b -> link a b = LOk r ->
+  exists r', link b a = LOk r' /\ veq (view_of r) (view_of r').
+Proof.
+  intros Ia Ib Hf H.
+  pose proof (link_ok_inv _ _ _ Ia Ib H) as L.
+  destruct (link_refines _ _ _ Ia Ib Hf H) as (V & _).
+  destruct (link_ok b a Ib Ia (linesfit_sym _ _ Hf) (linkable_sym _ _ L)) as (r' & E & V' & _).
+  exists r'. split; [exact E|].
+  eapply veq_trans; [exact V|]. eapply veq_trans; [|apply veq_sym; exact V'].
+  apply vlink_comm; [apply objinv_viewinv; assumption|apply objinv_viewinv; assumption|exact L].
+Qed.
+
+Theorem link_comm_fail a b : ObjInv a -> ObjInv b -> LinesFit a b ->
+  (forall r, link a b <> LOk r) -> (forall r, link b a <> LOk r).
+Proof.
+  intros Ia Ib Hf H r' E. pose proof (link_ok_inv _ _ _ Ib Ia E) as L.
+  destruct (link_ok a b Ia Ib Hf (linkable_sym _ _ L)) as (r & E' & _). eapply H; eauto.
+Qed.
+
+(* (a b) c and a (b c): one succeeds iff the other does, with the same view *)
+Theorem link_assoc a b c ab r : ObjInv a -> ObjInv b -> ObjInv c ->
+  nlines a + nlines b + nlines c <= usize_max ->
+  link a b = LOk ab -> link ab c = LOk r ->
+  exists bc r', link b c = LOk bc /\ link a bc = LOk r' /\ veq (view_of r) (view_of r').
+Proof.
+  intros Ia Ib Ic Hn H1 H2.
+  pose proof (nlines_nonneg a). pose proof (nlines_nonneg b). pose proof (nlines_nonneg c).
+  assert (Fab : LinesFit a b) by (unfold LinesFit; lia).
+  destruct (link_refines _ _ _ Ia Ib Fab H1) as (Vab & Iab & Nab).
+  assert (Fabc : LinesFit ab c) by (unfold LinesFit; lia).
+  destruct (link_refines _ _ _ Iab Ic Fabc H2) as (Vr & Ir & Nr).
+  pose proof (link_ok_inv _ _ _ Ia Ib H1) as Lab.
+  pose proof (link_ok_inv _ _ _ Iab Ic H2) as Labc.
+  pose proof (objinv_viewinv _ Ia) as Va. pose proof (objinv_viewinv _ Ib) as Vb. pose proof (objinv_viewinv _ Ic) as Vc.
+  assert (Labc' : Linkable (vlink (view_of a) (view_of b)) (view_of c)).
+  { eapply linkable_cong; [exact Vab|apply veq_refl|exact Labc]. }
+  apply linkable_vlink_l in Labc'; [|exact Lab]. destruct Labc' as (Lac & Lbc).
+  assert (Fbc : LinesFit b c) by (unfold LinesFit; lia).
+  destruct (link_ok b c Ib Ic Fbc Lbc) as (bc & Ebc & Vbc & Ibc & Nbc).
+  assert (La_bc : Linkable (view_of a) (view_of bc)).
+  { eapply linkable_cong; [apply veq_refl|apply veq_sym; exact Vbc|]. apply linkable_vlink_r; [exact Lbc|]. split; assumption. }
+  assert (Fa_bc : LinesFit a bc) by (unfold LinesFit; lia).
+  destruct (link_ok a bc Ia Ibc Fa_bc La_bc) as (r' & Er' & Vr' & _).
+  exists bc, r'. split; [exact Ebc|]. split; [exact Er'|].
+  eapply veq_trans; [exact Vr|].
+  eapply veq_trans; [apply vlink_cong; [exact Vab|apply veq_refl]|].
+  eapply veq_trans; [apply vlink_assoc; assumption|].
+  apply veq_sym. eapply veq_trans; [exact Vr'|]. apply vlink_cong; [apply veq_refl|exact Vbc].
+Qed.
+
+(* ---------- every order and bracketing ---------- *)
+Fixpoint lt_eval (t : ltree) : link_result :=
+  match t with
+  | Leaf o => LOk o
+  | Node l r => match lt_eval l with
+                | LOk a => match lt_eval r with
+                           | LOk b => link a b
+                           | other => other
+                           end
+                | other => other
+                end
+  end.
+Fixpoint vt (t : ltree) : vtree :=
+  match t with Leaf o => VLeaf (view_of o) | Node l r => VNode (vt l) (vt r) end.
+Definition total_lines (l : list objfile) : Z := fold_right (fun o acc => nlines o + acc) 0 l.
+
+Lemma vleaves_vt t : vleaves (vt t) = map view_of (leaves t).
+Proof. induction t as [o|l IHl r IHr]; cbn; [reflexivity|]. rewrite map_app, IHl, IHr. reflexivity. Qed.
+Lemma total_lines_cons o l : total_lines (o :: l) = nlines o + total_lines l.
+Proof. reflexivity. Qed.
+Lemma total_lines_app l1 l2 : total_lines (l1 ++ l2) = total_lines l1 + total_lines l2.
+Proof.
+  induction l1 as [|o r IH]; cbn [app]; [change (total_lines []) with 0; lia|].
+  rewrite !total_lines_cons, IH. lia.
+Qed.
+Lemma total_lines_nonneg l : 0 <= total_lines l.
+Proof. induction l as [|o r IH]; [unfold total_lines; cbn; lia|]. rewrite total_lines_cons. pose proof (nlines_nonneg o). lia. Qed.
+Lemma total_lines_perm l l' : Permutation l l' -> total_lines l = total_lines l'.
+Proof. induction 1; rewrite ?total_lines_cons; lia. Qed.
+
+Lemma lt_eval_ok t : Forall ObjInv (leaves t) -> total_lines (leaves t) <= usize_max -> vok (vt t) ->
+  exists r, lt_eval t = LOk r /\ veq (view_of r) (veval (vt t)) /\ ObjInv r /\ nlines r <= total_lines (leaves t).
+Proof.
+  induction t as [o|l IHl r IHr]; intros Hinv Hn Hok.
+  - cbn in *. inversion Hinv; subst. exists o. repeat split; auto. lia.
+  - cbn [leaves vt vok veval lt_eval] in *. apply Forall_app in Hinv. destruct Hinv as (Il & Ir).
+    rewrite total_lines_app in Hn. pose proof (total_lines_nonneg (leaves l)). pose proof (total_lines_nonneg (leaves r)).
+    destruct Hok as (Okl & Okr & L).
+    destruct (IHl Il ltac:(lia) Okl) as (rl & El & Vl & Jl & Nl).
+    destruct (IHr Ir ltac:(lia) Okr) as (rr & Er & Vr & Jr & Nr).
+    rewrite El, Er.
+    assert (L' : Linkable (view_of rl) (view_of rr)).
+    { eapply linkable_cong; [apply veq_sym; exact Vl|apply veq_sym; exact Vr|exact L]. }
+    assert (F : LinesFit rl rr) by (unfold LinesFit; lia).
+    destruct (link_ok rl rr Jl Jr F L') as (x & Ex & Vx & Jx & Nx).
+    exists x. split; [exact Ex|]. split; [|split; [exact Jx|rewrite total_lines_app; lia]].
+    eapply veq_trans; [exact Vx|]. apply vlink_cong; assumption.
+Qed.
+Lemma lt_eval_inv t : Forall ObjInv (leaves t) -> total_lines (leaves t) <= usize_max ->
+  forall x, lt_eval t = LOk x -> vok (vt t).
+Proof.
+  induction t as [o|l IHl r IHr]; intros Hinv Hn x H.
+  - exact Logic.I.
+  - cbn [leaves vt vok veval lt_eval] in *. apply Forall_app in Hinv. destruct Hinv as (Il & Ir).
+    rewrite total_lines_app in Hn. pose proof (total_lines_nonneg (leaves l)). pose proof (total_lines_nonneg (leaves r)).
+    destruct (lt_eval l) as [rl| |] eqn:El; try discriminate.
+    destruct (lt_eval r) as [rr| |] eqn:Er; try discriminate.
+    pose proof (IHl Il ltac:(lia) _ eq_refl) as Okl. pose proof (IHr Ir ltac:(lia) _ eq_refl) as Okr.
+    destruct (lt_eval_ok l Il ltac:(lia) Okl) as (rl' & El' & Vl & Jl & _). rewrite El in El'. inversion El'; subst rl'.
+    destruct (lt_eval_ok r Ir ltac:(lia) Okr) as (rr' & Er' & Vr & Jr & _). rewrite Er in Er'. inversion Er'; subst rr'.
+    split; [exact Okl|]. split; [exact Okr|].
+    eapply linkable_cong; [exact Vl|exact Vr|]. eapply link_ok_inv; eauto.
+Qed.
+
+(* Any two groupings of the same files, in any order: both succeed or both fail, and the
+   results have the same image, label addresses, external flags and pending relocations. *)
+Theorem link_any_order t t' : Permutation (leaves t) (leaves t') -> Forall ObjInv (leaves t) ->
+  total_lines (leaves t) <= usize_max ->
+  ((exists r, lt_eval t = LOk r) <-> (exists r', lt_eval t' = LOk r')) /\
+  (forall r r', lt_eval t = LOk r -> lt_eval t' = LOk r' -> veq (view_of r) (view_of r')).
+Proof.
+  intros Hp Hinv Hn.
+  assert (Hinv' : Forall ObjInv (leaves t')) by (eapply Permutation_Forall; eauto).
+  assert (Hn' : total_lines (leaves t') <= usize_max) by (rewrite <- (total_lines_perm _ _ Hp); exact Hn).
+  assert (Pv : Permutation (vleaves (vt t)) (vleaves (vt t'))) by (rewrite !vleaves_vt; apply Permutation_map; exact Hp).
+  assert (Iv : Forall ViewInv (vleaves (vt t))).
+  { rewrite vleaves_vt. apply Forall_forall. intros v Hv. apply in_map_iff in Hv. destruct Hv as (o & <- & Ho).
+    apply objinv_viewinv. rewrite Forall_forall in Hinv. auto. }
+  destruct (vtree_any_order _ _ Pv Iv) as (Hiff & Heq).
+  split; [split|].
+  - intros (r & E). apply (lt_eval_inv t Hinv Hn) in E. apply Hiff in E.
+    destruct (lt_eval_ok t' Hinv' Hn' E) as (r' & E' & _). eauto.
+  - intros (r' & E). apply (lt_eval_inv t' Hinv' Hn') in E. apply Hiff in E.
+    destruct (lt_eval_ok t Hinv Hn E) as (r & E' & _). eauto.
+  - intros r r' E E'.
+    pose proof (lt_eval_inv t Hinv Hn _ E) as Ok. pose proof (proj1 Hiff Ok) as Ok'.
+    destruct (lt_eval_ok t Hinv Hn Ok) as (x & Ex & Vx & _). rewrite E in Ex. inversion Ex; subst x.
+    destruct (lt_eval_ok t' Hinv' Hn' Ok') as (x' & Ex' & Vx' & _). rewrite E' in Ex'. inversion Ex'; subst x'.
+    eapply veq_trans; [exact Vx|]. eapply veq_trans; [apply Heq; exact Ok|]. apply veq_sym. exact Vx'.
+Qed.
+
+(* the linked view is the order-free meaning of the set of files *)
+Theorem link_tree_refines t r : Forall ObjInv (leaves t) -> total_lines (leaves t) <= usize_max ->
+  lt_eval t = LOk r -> veq (view_of r) (vlink_all (map view_of (leaves t))) /\ AllLinkable (map view_of (leaves t)).
+Proof.
+  intros Hinv Hn E. pose proof (lt_eval_inv t Hinv Hn _ E) as Ok.
+  destruct (lt_eval_ok t Hinv Hn Ok) as (x & Ex & Vx & _). rewrite E in Ex. inversion Ex; subst x.
+  assert (Iv : Forall ViewInv (vleaves (vt t))).
+  { rewrite vleaves_vt. apply Forall_forall. intros v Hv. apply in_map_iff in Hv. destruct Hv as (o & <- & Ho).
+    apply objinv_viewinv. rewrite Forall_forall in Hinv. auto. }
+  pose proof (vok_all _ Iv Ok) as All. rewrite vleaves_vt in All. split; [|exact All].
+  eapply veq_trans; [exact Vx|]. rewrite <- vleaves_vt. apply veval_all; [exact Iv|]. rewrite vleaves_vt. exact All.
+Qed.
